@@ -28,8 +28,17 @@ C10_MOUNTPOINT_DETAILS = ("MountFS: scandir(parent) reports a mount point with t
 C05_ALIAS_WORKERS = ("OSFS copy_dir/move_dir(workers>0) onto another name of the source (hard-link snapshot, symlinked "
                      "directory): the worker threads truncate the shared files")
 C05_ALIAS_MOVE_LINK = "OSFS move of a symbolic link onto the file it points to: the file's name is left as a dangling link"
+C01_TEXT_UNBUFFERED = ("open(path, <text mode>, buffering=0): filesystems whose open() goes through fs.iotools.make_stream "
+                       "(MemoryFS and what is built on it) open the file; io.open and OSFS raise ValueError (unbuffered text I/O)")
+C10_DANGLING_SCANDIR = ("OSFS: scandir(dir, namespaces that need a stat) raises ResourceNotFound when the directory holds a "
+                        "dangling symbolic link (listdir and scandir without namespaces list it)")
+C10_DANGLING_GETINFO = ("OSFS: a dangling symbolic link is listed by listdir / scandir, but exists() is False and getinfo() "
+                        "raises ResourceNotFound (also for the lstat / link namespaces)")
 # TODO (to be registered in known_findings.json; until then counted in the evidence, not reported):
-PENDING_FINDINGS = []      # the two OSFS alias findings are registered in known_findings.json; the MountFS mount-point
+PENDING_FINDINGS = [C01_TEXT_UNBUFFERED, C10_DANGLING_SCANDIR, C10_DANGLING_GETINFO]
+#                          (fs4, 2026-10-01: three behaviours of the UNCHANGED library exposed by the text-call block of C01
+#                            and by the symbolic-link trees of C10; awaiting triage)
+#                            the two OSFS alias findings are registered in known_findings.json; the MountFS mount-point
 #                            details inconsistency was repaired in /repo (75d0617): a violation again if it returns
 # (WALK_SPELLING_SIG and the two C10_CACHED_PAGE signatures were genuine defects, repaired in /repo (b3334b1, 2e1ab1a):
 #  not pending any more, violations again if they return)
@@ -488,6 +497,322 @@ def run_stream_block(report, backs, thorough):
     return cov, div, bulk_bad, vseed, hs
 
 
+# ---- C01: the TEXT calls (writetext / appendtext / readtext / open in the text modes and the methods of the file it
+# returns).  FS.open documents its keywords as those of io.open, so the reference is the real io module: the same call
+# sequence on a real file (io.open on a temporary file) - every backend must give the same verdict, the same returned
+# text and the same stored bytes.  The keywords are taken from the signatures by reflection; every keyword is driven
+# through every value of its table with contents on which it matters.
+
+TEXT_KW_VALUES = dict(
+    encoding=[None, "utf-8", "ascii", "latin-1", "utf-16", "utf-8-sig", "utf-16-le", "cp1252"],
+    errors=[None, "strict", "ignore", "replace", "backslashreplace", "xmlcharrefreplace", "surrogateescape"],
+    newline=[None, "", "\n", "\r", "\r\n"],
+    buffering=[-1, 0, 1, 2, 7, 4096],
+    line_buffering=[False, True])
+TEXT_NOT_KEYWORDS = ("self", "path", "contents", "text", "mode", "name", "bin_file", "options", "kwargs")
+TEXT_SAMPLES = [u"", u"plain", u"one\ntwo\n", u"dos\r\nlines\r\n", u"lone\rcr", u"mix\n\r\n\r\rend\r", u"\n", u"\r",
+                u"caf\xe9 €", u"\xe9\r\n\U0001f600\n", u"tail\r\n\r"]
+TEXT_BYTES = [b"", b"plain", b"one\ntwo\n", b"dos\r\nlines\r\n", b"lone\rcr", b"mix\n\r\n\r\rend\r", b"\r\n\r\n", b"\r",
+              u"caf\xe9 €\r\n".encode("utf-8"), u"caf\xe9\r\n".encode("latin-1"), u"b\xe9\r\nm\n".encode("utf-16"),
+              u"sig\r\n\xe9".encode("utf-8-sig"), u"le\r\n".encode("utf-16-le"), b"\xff\xfe\xfd", b"ok\r\n\x80tail"]
+# contents on which a keyword matters (always used when that keyword is varied)
+TEXT_CRITICAL = dict(encoding=[u"caf\xe9 \u20ac\r\n"], errors=[u"bad\udc80 \xe9\u20ac\r\nx"], newline=[u"mix\n\r\n\r\rend\r"],
+                     buffering=[u"one\ntwo\r\n" * 3], line_buffering=[u"one\ntwo\r\n"])
+TEXT_CRITICAL_BYTES = dict(encoding=[u"b\xe9\r\nm\n".encode("utf-16"), u"caf\xe9\r\n".encode("latin-1")],
+                           errors=[b"ok\r\n\x80\xfftail\r"], newline=[b"mix\n\r\n\r\rend\r"], buffering=[b"one\ntwo\r\n" * 3],
+                           line_buffering=[b"dos\r\nlines\r\n"])
+TEXT_READ_MODES = ["r", "rt", "r+", "r+t"]
+TEXT_WRITE_MODES = ["w", "wt", "w+", "a", "at", "a+", "x", "r+"]
+TEXT_FILE_READS = [[("read",)], [("readline",), ("readline",), ("read",)], [("readlines",)], [("iter",)],
+                   [("read", 3), ("readline",), ("iter",)], [("readline", 2), ("readlines", 4), ("read",)],
+                   [("next",), ("next",), ("read", 1)]]
+
+
+def text_keywords():
+    """method -> [keyword names], from the signatures of the base class (FS.open forwards its **options to
+    fs.iotools.make_stream, whose named parameters are keywords of open too)."""
+    import inspect
+    import fs.base
+    import fs.iotools
+    out = {}
+    for m in ("writetext", "appendtext", "readtext", "open"):
+        ps = [p for p in inspect.signature(getattr(fs.base.FS, m)).parameters if p not in TEXT_NOT_KEYWORDS]
+        if m == "open":
+            ps += [p for p in inspect.signature(fs.iotools.make_stream).parameters
+                   if p not in TEXT_NOT_KEYWORDS and p not in ps]
+        out[m] = ps
+    return out
+
+
+def text_defaults(method):
+    import inspect
+    import fs.base
+    import fs.iotools
+    d = {}
+    for f in ([fs.iotools.make_stream] if method == "open" else []) + [getattr(fs.base.FS, method)]:
+        for n, p in inspect.signature(f).parameters.items():
+            if n not in TEXT_NOT_KEYWORDS and p.default is not inspect.Parameter.empty:
+                d[n] = p.default
+    return d
+
+
+class IoRef(object):
+    """The reference: the text calls on REAL files through io.open, with the defaults FS documents."""
+
+    def __init__(self, d):
+        self.d = d
+        self.defaults = dict((m, text_defaults(m)) for m in ("writetext", "appendtext", "readtext", "open"))
+
+    def _p(self, p):
+        import os
+        return os.path.join(self.d, p)
+
+    def writebytes(self, p, data):
+        with io.open(self._p(p), "wb") as f:
+            f.write(data)
+
+    def readbytes(self, p):
+        with io.open(self._p(p), "rb") as f:
+            return f.read()
+
+    def exists(self, p):
+        import os
+        return os.path.exists(self._p(p))
+
+    def open(self, p, mode="r", **kw):
+        k = dict(self.defaults["open"])
+        k.update(kw)
+        lb = k.pop("line_buffering", False)
+        k["encoding"] = k["encoding"] or "utf-8"       # "Encoding for text files (defaults to utf-8)"
+        f = io.open(self._p(p), mode, **k)
+        if lb:
+            f.reconfigure(line_buffering=True)
+        return f
+
+    def _via(self, method, mode, p, kw):
+        k = dict(self.defaults[method])
+        k.update(kw)
+        return self.open(p, mode, **k)
+
+    def writetext(self, p, contents, **kw):
+        with self._via("writetext", "wt", p, kw) as f:
+            f.write(contents)
+
+    def appendtext(self, p, text, **kw):
+        with self._via("appendtext", "at", p, kw) as f:
+            f.write(text)
+
+    def readtext(self, p, **kw):
+        with self._via("readtext", "rt", p, kw) as f:
+            return f.read()
+
+
+def text_exc(e):
+    """Verdict class of a failing text call: the io / codec exception classes are the same objects on both sides;
+    'the file exists' / 'no such file' are FileExists / ResourceNotFound on the FS side."""
+    n = type(e).__name__
+    return {"FileExistsError": "FileExists", "FileNotFoundError": "ResourceNotFound"}.get(n, n)
+
+
+def text_file_ops(f, ops):
+    out = []
+    for o in ops:
+        if o[0] == "read":
+            out.append(f.read(*o[1:]))
+        elif o[0] == "readline":
+            out.append(f.readline(*o[1:]))
+        elif o[0] == "readlines":
+            out.append(f.readlines(*o[1:]))
+        elif o[0] == "iter":
+            out.append(list(f))
+        elif o[0] == "next":
+            out.append(next(f, None))
+        elif o[0] == "write":
+            r = f.write(o[1])
+            out.append(r)
+        elif o[0] == "writelines":
+            f.writelines(o[1])
+        elif o[0] == "seek0":
+            f.seek(0)
+        elif o[0] == "flush":
+            f.flush()
+        else:
+            raise ValueError(o)
+    return out
+
+
+def run_text_case(fsx, name, case):
+    """case = (initial bytes | None, [step...]); a step is (method, args..., kw).  Returns the observation list:
+    per step (verdict, returned values, stored bytes afterwards)."""
+    init, steps = case
+    obs = []
+    if init is not None:
+        fsx.writebytes(name, init)
+    for st in steps:
+        m, kw = st[0], st[-1]
+        try:
+            if m == "writetext":
+                fsx.writetext(name, st[1], **kw)
+                r = None
+            elif m == "appendtext":
+                fsx.appendtext(name, st[1], **kw)
+                r = None
+            elif m == "readtext":
+                r = fsx.readtext(name, **kw)
+            elif m == "open":
+                f = fsx.open(name, st[1], **kw)
+                try:
+                    r = text_file_ops(f, st[2])
+                finally:
+                    f.close()
+            else:
+                raise ValueError(m)
+            v = "ok"
+        except fsops.Timeout:
+            raise
+        except Exception as e:  # noqa
+            v, r = text_exc(e), None
+        try:
+            stored = fsx.readbytes(name) if fsx.exists(name) else None
+        except Exception as e:  # noqa
+            stored = "readbytes fails: " + type(e).__name__
+        obs.append((v, r, stored))
+    return obs
+
+
+def text_cases(seed, thorough):
+    """The case list: every keyword of every text method through every value of its table (the other keywords at their
+    defaults), every errors x encoding pair, and random combinations - on contents on which the keywords matter."""
+    rnd = random.Random(seed)
+    kws = text_keywords()
+    cases = []
+    unknown = sorted(set(k for m in kws for k in kws[m] if k not in TEXT_KW_VALUES))
+
+    def contents(kw, pool, critical, n):
+        out = []
+        for k in sorted(kw):
+            out += [c for c in critical.get(k, []) if c not in out]
+        rest = [c for c in pool if c not in out]
+        return out[:n + 1] + (rest if thorough else rnd.sample(rest, max(0, min(len(rest), n - len(out)))))
+
+    def kwsets(m):
+        known = [k for k in kws[m] if k in TEXT_KW_VALUES]
+        out = [dict()]
+        for k in known:
+            out += [{k: v} for v in TEXT_KW_VALUES[k]]
+        if "errors" in known and "encoding" in known:       # what `errors` does depends on what the encoding cannot do
+            pairs = [dict(errors=e, encoding=c) for e in TEXT_KW_VALUES["errors"] for c in TEXT_KW_VALUES["encoding"]
+                     if e is not None and c is not None]
+            out += pairs if thorough else rnd.sample(pairs, 12)
+        for _ in range(60 if thorough else 8):          # combinations
+            ks = rnd.sample(known, min(len(known), rnd.randint(2, 3)))
+            out.append(dict((k, rnd.choice(TEXT_KW_VALUES[k])) for k in ks))
+        return out
+    for kw in kwsets("writetext"):
+        for t in contents(kw, TEXT_SAMPLES, TEXT_CRITICAL, 2):
+            cases.append((rnd.choice([None, b"old\r\ncontent"]), [("writetext", t, kw), ("readtext", kw)]))
+    for kw in kwsets("appendtext"):
+        enc = kw.get("encoding") or "utf-8"
+        for t in contents(kw, TEXT_SAMPLES, TEXT_CRITICAL, 2):
+            try:        # append to: nothing, an empty file, a non-empty file in the same encoding (BOM already there)
+                pre = u"first\r\n\xe9".encode(enc, "replace")
+            except LookupError:
+                pre = b"first"
+            init = rnd.choice([None, b"", pre, pre])
+            cases.append((init, [("appendtext", t, kw), ("appendtext", t[::-1], kw), ("readtext", kw)]))
+    for kw in kwsets("readtext"):
+        for data in contents(kw, TEXT_BYTES, TEXT_CRITICAL_BYTES, 3):
+            cases.append((data, [("readtext", kw)]))
+    for kw in kwsets("open"):
+        for data in contents(kw, TEXT_BYTES, TEXT_CRITICAL_BYTES, 2):
+            cases.append((data, [("open", rnd.choice(TEXT_READ_MODES), rnd.choice(TEXT_FILE_READS), kw)]))
+        for t in contents(kw, TEXT_SAMPLES, TEXT_CRITICAL, 2):
+            mode = rnd.choice(TEXT_WRITE_MODES)
+            init = None if "x" in mode else rnd.choice([None, b"", b"old\r\nbytes\r"]) if "r" not in mode \
+                else b"old\r\nbytes\r"
+            ops = rnd.choice([[("write", t)], [("write", t), ("write", u"\n"), ("write", t)],
+                              [("writelines", [t, u"\r\n", t])], [("write", t), ("flush",), ("write", u"z\r")]])
+            if "+" in mode:
+                ops = ops + [("seek0",), ("read",)] if rnd.random() < 0.5 else [("readline",)] + ops
+            cases.append((init, [("open", mode, ops, kw), ("open", "r", [("read",)], dict(
+                (k, v) for k, v in kw.items() if k in ("encoding", "errors")))]))
+    return cases, unknown
+
+
+def text_signature(d):
+    kw = d["keywords"]
+    if d["method"] == "open" and kw.get("buffering") == 0 and d["io_open_gives"][0] == "ValueError" \
+            and d["backend_gives"][0] != "ValueError":      # (the file was opened; whatever its methods then did)
+        return C01_TEXT_UNBUFFERED
+    what = "verdict" if d["backend_gives"][0] != d["io_open_gives"][0] else \
+        "returned text" if d["backend_gives"][1] != d["io_open_gives"][1] else "stored bytes"
+    return "%s.%s(%s): %s differs from io.open on a real file" % (d["backend"], d["method"], ",".join(sorted(kw)), what)
+
+
+def run_text_backend(bc, cases, expected):
+    """-> disagreements of one backend with the io.open observations."""
+    import signal
+    bad = []
+    b = bc()
+    old = signal.signal(signal.SIGALRM, fsops._alarm)
+    try:
+        fsx = b.make()
+        for i, c in enumerate(cases):
+            if expected[i] is None:
+                continue
+            signal.alarm(5)
+            try:
+                got = run_text_case(fsx, "t%d" % i, c)
+            except fsops.Timeout:
+                got = [("NonTermination", None, None)]
+            finally:
+                signal.alarm(0)
+            if got != expected[i]:
+                k = next(j for j in range(len(got)) if j >= len(expected[i]) or got[j] != expected[i][j])
+                bad.append(dict(backend=bc.name, case_index=i, initial_bytes=c[0], steps=c[1], step=k, method=c[1][k][0],
+                                keywords=c[1][k][-1], call=repr(c[1][k]), backend_gives=got[k],
+                                io_open_gives=expected[i][k] if k < len(expected[i]) else (None, None, None)))
+    finally:
+        signal.signal(signal.SIGALRM, old)
+        b.close()
+    return bad
+
+
+def text_reference(cases, only=None):
+    import tempfile
+    d = tempfile.mkdtemp(prefix="pyfs2verif_")
+    try:
+        ref = IoRef(d)
+        return [run_text_case(ref, "t%d" % i, c) if only is None or i == only else None for i, c in enumerate(cases)]
+    finally:
+        common.rm_rf(d)
+
+
+def run_text_block(report, backs, thorough):
+    """Returns (coverage dict, [disagreement dicts])."""
+    import time
+    t0 = time.time()
+    cases, unknown = text_cases(report.seed + 151, thorough)
+    expected = text_reference(cases)
+    verdicts = collections.Counter(o[0] for e in expected for o in e)
+    bad = []
+    for bc in backs:
+        bad += run_text_backend(bc, cases, expected)
+    for d in bad:
+        d.update(case_seed=report.seed + 151)
+    cov = dict(rule="writetext / appendtext / readtext / open(text modes).read/readline/readlines/iteration/next/write/"
+                    "writelines with every keyword the signatures carry (%s) through every value of its table - alone, every "
+                    "errors x encoding pair, random combinations - on contents on which the keyword matters (lone CR, CRLF, "
+                    "mixed newlines, characters / bytes the encoding cannot represent, lone surrogates, BOM encodings "
+                    "appended to non-empty files), on every backend; oracle = the same call sequence on a real file "
+                    "through io.open with FS's documented defaults: verdict, returned text and stored bytes after every "
+                    "call must be equal" % "; ".join("%s: %s" % (m, "/".join(k)) for m, k in sorted(text_keywords().items())),
+               cases=len(cases), case_runs=len(cases) * len(backs), reference_verdicts=dict(verdicts),
+               keyword_values=dict((k, [repr(v) for v in vs]) for k, vs in TEXT_KW_VALUES.items()),
+               keywords_without_value_table=unknown, disagreements=len(bad), wall_s=round(time.time() - t0, 2))
+    return cov, bad
+
+
 # ---- C01: MultiFS over members that hold content of their own, added before / after first use.  The documented search
 # order (descending priority, then most recently added first) names, for every path, the member that answers: the
 # queries through the MultiFS must give what that member - a MemoryFS, tied to the model - gives.
@@ -723,6 +1048,27 @@ def run_c01(report):
         if len(seen_sig) <= 12:
             report.violation(dict(kind="stream-bulk-data-differs", signature=sig, theorem="Props/C01.v", **d))
     divergences = divergences + [x[:4] for x in st_div] + st_bulk
+    # 2b'. the text calls (writetext / appendtext / readtext / open in the text modes) with every keyword: oracle io.open
+    tx_cov, tx_bad = run_text_block(report, backs, thorough)
+    tx_pending = collections.Counter()
+    for d in tx_bad:
+        sig = text_signature(d)
+        known = report.known_match(sig)
+        if known:
+            report.known_finding(known, example=d["call"])
+            continue
+        if sig in PENDING_FINDINGS:
+            tx_pending[sig] += 1
+            continue
+        divergences.append(d)
+        if sig in seen_sig:
+            continue
+        seen_sig.add(sig)
+        if len(seen_sig) <= 12:
+            report.violation(dict(kind="text-call-differs-from-io-open", signature=sig, theorem="Props/C01.v",
+                                  **dict((k, repr(v) if k in ("initial_bytes", "steps", "backend_gives", "io_open_gives",
+                                                              "keywords") else v) for k, v in d.items())))
+    tx_cov["pending_findings_seen"] = dict(tx_pending)
     # 2c. MultiFS over members with content of their own, added before / after first use: the documented search order
     ly_cov, ly_bad = run_layer_block(report, thorough)
     for d in ly_bad:
@@ -756,6 +1102,7 @@ def run_c01(report):
                vm_compute_crosschecked=n_vm, per_backend=per_backend,
                distribution={"%s/%s" % k: v for k, v in sorted(dist.items())})
     cov["stream_calls"] = st_cov
+    cov["text_calls"] = tx_cov
     cov["multifs_layers_added_while_in_use"] = ly_cov
     cov["growing_compositions"] = [bc.name for bc in B.GROWING]
     # 3. the OSFS model over the POSIX kernel model (FS/Osfs.v, proved to refine the reference in FS/OsfsProofs.v)
@@ -799,6 +1146,18 @@ def replay(report, path):
         for sx, r in zip(d["spellings"], outs):
             print("replay", bc.name, q[0], repr(sx), "->", r)
         return 1 if len(set(outs)) > 1 else 0
+    if d.get("kind") == "start-path-spellings-disagree":
+        bc2 = dict((c.name, c) for c in start_path_backends(True))[d["backend"]]
+        queries, _u = start_path_queries(random.Random(d["block_seed"]), d["tier"] == "thorough")
+        label, runq = queries[d["query_index"]]
+        b, fsx = start_path_object(bc2, [op_from_json(o) for o in d["history"]])
+        try:
+            outs = [_start_answer(fsx, runq, sx) for sx in d["spellings"]]
+        finally:
+            b.close()
+        for sx, r in zip(d["spellings"], outs):
+            print("replay", bc2.name, label, repr(sx), "->", r[:300])
+        return 1 if len(set(outs)) > 1 else 0
     if d.get("kind") == "mount-point-spellings-disagree":
         n = len(d["existing_mounts"])
         a, b2 = mount_observe(d["spelling_a"], n), mount_observe(d["spelling_b"], n)
@@ -826,12 +1185,33 @@ def replay(report, path):
                   r["files_that_lost_their_bytes"], "| source content nowhere:",
                   r["source_content_neither_at_source_nor_destination"])
         return 1 if hit else 0
+    if d.get("kind") == "transfer-family-data-destroyed-or-not-delivered":
+        th = d["tier"] == "thorough"
+        st = run_xdev(xdev_cases(th)[d["case_index"]]) if d["family"] == "cross-device" \
+            else run_small_dst(small_dst_cases(th)[d["case_index"]])
+        v = common.run_model(preserved_lines([st]))[0]
+        print("replay", st.backend, st.op, "->", st.outcome, "| preserved2:", v, "\n  before:", st.pre[:600],
+              "\n  after: ", st.post[:600])
+        return 1 if v != "T" or st.outcome.startswith("crash:NonTermination") else 0
+    if d.get("kind") == "raised-exception-does-not-render":
+        _steps, log = run_rendered(bc, [[op_from_json(o) for o in d["history"]]])
+        for hi, k, cls, fails in log:
+            print("replay", bc.name, d["history"][k][:1], "raises", cls, "which does not render:", fails)
+        return 1 if log else 0
     if d.get("kind") == "multifs-layer-order":
         n, bad = layer_case(d["case_seed"], d["case_index"])
         for x in bad:
             print("replay MultiFS", x["log"], "\n  ", x["query"], x["path"], "documented owner", x["documented_owner"],
                   "answers", x["owner_answers"], "| MultiFS answers", x["multifs_answers"])
         print("replay: %d comparisons, %d disagreements" % (n, len(bad)))
+        return 1 if bad else 0
+    if d.get("kind") == "text-call-differs-from-io-open":
+        cases, _u = text_cases(d["case_seed"], d["tier"] == "thorough")
+        i = d["case_index"]
+        bad = [x for x in run_text_backend(bc, cases, text_reference(cases, only=i))]
+        print("replay", bc.name, "initial bytes", repr(cases[i][0]), "calls", cases[i][1])
+        for x in bad:
+            print("  call", x["call"], "\n    backend:", x["backend_gives"], "\n    io.open:", x["io_open_gives"])
         return 1 if bad else 0
     if d.get("kind") == "stream-bulk-data-differs":
         b = bc()
@@ -876,7 +1256,11 @@ def replay(report, path):
     bad = 0
     for s, r in zip(steps, refs):
         okr, okt = agrees2(s, r)
-        print("replay", s.backend, s.op, "->", s.outcome, "| reference:", r.split("#")[0], "| agree:", okr, okt)
+        if d.get("property") == "C06" and s.outcome == "err:InvalidPath" and any(
+                isinstance(x, str) and too_long_for(bc, x) for x in s.op[1:3]):
+            okr = True      # "InvalidPath: if path is too long" holds for this storage (see run_c06)
+        print("replay", s.backend, [x if not isinstance(x, str) or len(x) < 200 else x[:60] + "...(%d characters)" % len(x)
+                                    for x in s.op], "->", s.outcome, "| reference:", r.split("#")[0], "| agree:", okr, okt)
         bad += (not (okr and okt))
     return 1 if bad else 0
 
@@ -1450,6 +1834,289 @@ def run_alias_family(thorough):
     return n, results
 
 
+# ---- C05 across DEVICES.  os.rename() cannot move between two mounted devices (EXDEV): FS.move's rename shortcut must
+# fall back to copy + remove there, with the same checks.  /tmp and /dev/shm are two devices on the usual Linux machine
+# (verified through st_dev; the family is skipped quietly otherwise).  Two layouts: two OSFS objects, one per device
+# (fs.move / fs.copy functions; move_file goes through OSFS(common ancestor).move), and ONE OSFS whose tree reaches the
+# other device through a directory symlink (FS.move / copy / movedir / copydir with every flag).
+
+XDEV_DIRS = ("/tmp", "/dev/shm")
+XDEV_SRC = [("f", b"source f"), ("d/g", b"G in d"), ("d/e/h", b"H"), ("d/f", b"d's own f"), ("z", b"")]
+XDEV_DST_STATES = ["missing", "file", "emptydir", "dir", "dirsame", "belowfile", "noparent"]
+
+
+def xdev_available():
+    import os
+    try:
+        return all(os.path.isdir(d) and os.access(d, os.W_OK) for d in XDEV_DIRS) and \
+            os.stat(XDEV_DIRS[0]).st_dev != os.stat(XDEV_DIRS[1]).st_dev
+    except OSError:
+        return False
+
+
+def _plant(root, files):
+    import os
+    for rel, data in files:
+        p = os.path.join(root, rel)
+        if not os.path.isdir(os.path.dirname(p)):
+            os.makedirs(os.path.dirname(p))
+        with open(p, "wb") as fh:
+            fh.write(data)
+
+
+def xdev_dst(root, state, srcname):
+    """Prepare the destination side; returns the destination path (relative to root)."""
+    import os
+    _plant(root, [("keep.txt", b"unrelated, keep"), ("other/keep2", b"keep2")])
+    if state == "missing":
+        return "t"
+    if state == "file":
+        _plant(root, [("t", b"old t")])
+        return "t"
+    if state == "emptydir":
+        os.mkdir(os.path.join(root, "t"))
+        return "t"
+    if state == "dir":          # a directory with content of its own (other names than the source's)
+        _plant(root, [("t/inner", b"inner"), ("t/sub/deep", b"deep")])
+        return "t"
+    if state == "dirsame":      # a directory holding entries named like the source and like the source's entries
+        _plant(root, [("t/" + srcname, b"same-named file inside t"), ("t/g", b"t's g"), ("t/e/h", b"t's h"), ("t/x", b"x")])
+        return "t"
+    if state == "belowfile":
+        _plant(root, [("tf", b"a file")])
+        return "tf/t"
+    if state == "noparent":
+        return "np/t"
+    raise ValueError(state)
+
+
+def xdev_cases(thorough):
+    """(layout, function, source path, destination state, flag, preserve_time, workers, reverse)"""
+    out = []
+    for state in XDEV_DST_STATES:
+        for pt in (False, True):
+            for fn, sp in (("move_file", "f"), ("copy_file", "f"), ("move_file", "d"), ("move_file", "nope")):
+                out.append(("two", fn, sp, state, True, pt, 0, False))
+            for fn in ("move_dir", "copy_dir"):
+                for w in ((0, 2) if thorough or not pt else (0,)):
+                    out.append(("two", fn, "d", state, True, pt, w, False))
+            for flag in (True, False):
+                for rev in (False, True):
+                    if rev and not (thorough or flag):
+                        continue
+                    for fn, sp in (("move", "f"), ("copy", "f"), ("movedir", "d"), ("copydir", "d"), ("move", "d"),
+                                   ("move", "z")):
+                        if fn in ("movedir", "copydir", "copy") and pt and not thorough:
+                            continue
+                        out.append(("one", fn, sp, state, flag, pt, 0, rev))
+    for fn in ("move_fs", "copy_fs"):
+        for w in (0, 2):
+            out.append(("two", fn, "/", "dir", True, False, w, False))
+    return out
+
+
+def run_xdev(case):
+    """-> (Step over the combined tree, description)"""
+    import os
+    import tempfile
+    import fs.copy
+    import fs.move
+    from fs.osfs import OSFS
+    layout, fn, sp, state, flag, pt, workers, rev = case
+    da = tempfile.mkdtemp(prefix="pyfs2verif_", dir=XDEV_DIRS[1 if rev else 0])
+    db = tempfile.mkdtemp(prefix="pyfs2verif_", dir=XDEV_DIRS[0 if rev else 1])
+    objs = []
+    try:
+        ra, rb = os.path.join(da, "root"), os.path.join(db, "far")
+        os.mkdir(ra), os.mkdir(rb)
+        _plant(ra, XDEV_SRC)
+        dp = xdev_dst(rb, state, sp)
+        if layout == "two":
+            sfs, dfs = OSFS(ra), OSFS(rb)
+            objs += [sfs, dfs]
+            snap = lambda: "D@N{s83:" + B.snap_os(ra) + ";s68:" + B.snap_os(rb) + "}"
+            S, D = "S/" + sp.lstrip("/"), "D/" + dp
+            if fn in ("move_fs", "copy_fs"):
+                S, D = "S", "D"
+            call = {"move_file": lambda: fs.move.move_file(sfs, sp, dfs, dp, preserve_time=pt),
+                    "copy_file": lambda: fs.copy.copy_file(sfs, sp, dfs, dp, preserve_time=pt),
+                    "move_dir": lambda: fs.move.move_dir(sfs, sp, dfs, dp, workers=workers, preserve_time=pt),
+                    "copy_dir": lambda: fs.copy.copy_dir(sfs, sp, dfs, dp, workers=workers, preserve_time=pt),
+                    "move_fs": lambda: fs.move.move_fs(sfs, dfs, workers=workers, preserve_time=pt),
+                    "copy_fs": lambda: fs.copy.copy_fs(sfs, dfs, workers=workers, preserve_time=pt)}[fn]
+            kind = {"move_file": "move", "copy_file": "copy", "move_dir": "movedir", "copy_dir": "copydir",
+                    "move_fs": "movedir", "copy_fs": "copydir"}[fn]
+        else:
+            os.symlink(rb, os.path.join(ra, "x"))       # the far device, reached through a directory symlink
+            one = OSFS(ra)
+            objs.append(one)
+            snap = lambda: B.snap_os(ra)
+            S, D = sp, "x/" + dp
+            call = {"move": lambda: one.move(S, D, overwrite=flag, preserve_time=pt),
+                    "copy": lambda: one.copy(S, D, overwrite=flag, preserve_time=pt),
+                    "movedir": lambda: one.movedir(S, D, create=flag, preserve_time=pt),
+                    "copydir": lambda: one.copydir(S, D, create=flag, preserve_time=pt)}[fn]
+            kind = fn
+        pre = snap()
+        out = _guarded(call)
+        post = snap()
+    finally:
+        for o in objs:
+            try:
+                o.close()
+            except Exception:  # noqa
+                pass
+        common.rm_rf(da)
+        common.rm_rf(db)
+    name = "%s%s(%s, two devices%s, destination %s)" % (
+        fn, "[workers=%d]" % workers if workers else "",
+        "OSFS -> OSFS" if layout == "two" else "one OSFS reaching the other device through a directory symlink",
+        ", reversed" if rev else "", state)
+    return Step(name, 0, 0, (kind, S, D, flag, pt), pre, out, post)
+
+
+# ---- C05 with a destination that is TOO SMALL: a write error that surfaces when the data reaches the device - in
+# write() for data larger than the file object's buffer, only in flush() / close() for smaller files (ENOSPC, EDQUOT,
+# EFBIG).  RLIMIT_FSIZE gives exactly that on any OSFS destination: writes beyond the limit fail with EFBIG.
+
+def _patterned(n, salt):
+    return bytes(bytearray((i * 7 + salt) % 251 for i in range(n)))
+
+
+def small_dst_files(big):
+    buf = max(io.DEFAULT_BUFFER_SIZE, 8192)
+    fl = [("tiny", _patterned(10, 1)), ("small", _patterned(300, 2)), ("d/mid", _patterned(buf // 2 + 5, 3)),
+          ("d/e/zero", b""), ("d/e/tiny2", _patterned(7, 4))]
+    if big:
+        fl.append(("d/big", _patterned(buf + 900, 5)))
+    return fl
+
+
+class limited_file_size(object):
+    """with limited_file_size(n): no file of this process can grow beyond n bytes (write -> EFBIG)."""
+
+    def __init__(self, n):
+        self.n = n
+
+    def __enter__(self):
+        import resource
+        import signal
+        self.old_sig = signal.signal(signal.SIGXFSZ, signal.SIG_IGN)
+        self.old = resource.getrlimit(resource.RLIMIT_FSIZE)
+        resource.setrlimit(resource.RLIMIT_FSIZE, (self.n, self.old[1]))
+
+    def __exit__(self, *a):
+        import resource
+        import signal
+        resource.setrlimit(resource.RLIMIT_FSIZE, self.old)
+        signal.signal(signal.SIGXFSZ, self.old_sig)
+
+
+def small_dst_cases(thorough):
+    """(source kind, destination kind, function, source path, limit, workers, preserve_time, big)"""
+    out = []
+    for skind in ("mem", "os"):
+        for dkind in (("os", "subos", "wrapos") if thorough else ("os", "subos")):
+            for limit in (64, 2000):
+                for fn, sp in (("copy_file", "tiny"), ("copy_file", "small"), ("copy_file", "d/mid"), ("move_file", "small"),
+                               ("move_file", "d/mid"), ("copy_file", "d/big"), ("move_file", "d/big")):
+                    if dkind != "os" and fn == "copy_file" and not thorough:
+                        continue
+                    out.append((skind, dkind, fn, sp, limit, 0, limit == 64, sp == "d/big"))
+                for fn in ("copy_dir", "move_dir", "copy_fs", "move_fs"):
+                    for w in (0, 1, 2):
+                        for big in ((False, True) if thorough or (limit == 2000 and dkind == "os") else (False,)):
+                            out.append((skind, dkind, fn, "/" if fn.endswith("_fs") else "d", limit, w, w == 1, big))
+    return out
+
+
+def run_small_dst(case):
+    import os
+    import tempfile
+    import fs.copy
+    import fs.move
+    from fs.memoryfs import MemoryFS
+    from fs.osfs import OSFS
+    from fs.wrapfs import WrapFS
+    skind, dkind, fn, sp, limit, workers, pt, big = case
+    tmp = tempfile.mkdtemp(prefix="pyfs2verif_")
+    objs = []
+    try:
+        rs, rd = os.path.join(tmp, "src"), os.path.join(tmp, "dst")
+        os.mkdir(rs), os.mkdir(rd)
+        if skind == "mem":
+            sfs = MemoryFS()
+            for rel, data in small_dst_files(big):
+                sfs.makedirs(os.path.dirname(rel), recreate=True)
+                sfs.writebytes(rel, data)
+            ssnap = lambda: fsops.snap_memoryfs(sfs)
+        else:
+            _plant(rs, small_dst_files(big))
+            sfs = OSFS(rs)
+            ssnap = lambda: B.snap_os(rs)
+        _plant(rd, [("keep.txt", b"unrelated, keep"), ("top/in/keep2", b"keep2 " * 40)])
+        base = OSFS(rd)
+        objs += [sfs, base]
+        dfs = base if dkind == "os" else base.opendir("top/in") if dkind == "subos" else WrapFS(base)
+        dp = "/" if fn.endswith("_fs") else "t"
+        snap = lambda: "D@N{s83:" + ssnap() + ";s68:" + B.snap_os(rd) + "}"
+        call = {"move_file": lambda: fs.move.move_file(sfs, sp, dfs, dp, preserve_time=pt),
+                "copy_file": lambda: fs.copy.copy_file(sfs, sp, dfs, dp, preserve_time=pt),
+                "move_dir": lambda: fs.move.move_dir(sfs, sp, dfs, dp, workers=workers, preserve_time=pt),
+                "copy_dir": lambda: fs.copy.copy_dir(sfs, sp, dfs, dp, workers=workers, preserve_time=pt),
+                "move_fs": lambda: fs.move.move_fs(sfs, dfs, workers=workers, preserve_time=pt),
+                "copy_fs": lambda: fs.copy.copy_fs(sfs, dfs, workers=workers, preserve_time=pt)}[fn]
+        pre = snap()
+        with limited_file_size(limit):
+            out = _guarded(call)
+        post = snap()
+    finally:
+        for o in objs:
+            try:
+                o.close()
+            except Exception:  # noqa
+                pass
+        common.rm_rf(tmp)
+    dbase = "D" if dkind != "subos" else "D/top/in"
+    S = "S" if fn.endswith("_fs") else "S/" + sp
+    D = dbase if fn.endswith("_fs") else dbase + "/t"
+    kind = {"move_file": "move", "copy_file": "copy", "move_dir": "movedir", "copy_dir": "copydir",
+            "move_fs": "movedir", "copy_fs": "copydir"}[fn]
+    name = "%s[workers=%d%s](%s -> %s that cannot hold files over %d bytes)" % (
+        fn, workers, ",preserve_time" if pt else "", {"mem": "MemoryFS", "os": "OSFS"}[skind],
+        {"os": "OSFS", "subos": "SubFS(OSFS)", "wrapos": "WrapFS(OSFS)"}[dkind], limit)
+    return Step(name, 0, 0, (kind, S, D, True, pt), pre, out, post)
+
+
+def run_transfer_families(thorough):
+    """The cross-device and the too-small-destination families -> (steps, [(family, case index)], coverage dict)."""
+    import time
+    steps, meta = [], []
+    cov = dict(cross_device_available=xdev_available(), cross_device_dirs=list(XDEV_DIRS))
+    t0 = time.time()
+    if cov["cross_device_available"]:
+        for ci, c in enumerate(xdev_cases(thorough)):
+            steps.append(run_xdev(c))
+            meta.append(("cross-device", ci))
+    cov["cross_device_cases"] = len(steps)
+    cov["cross_device_wall_s"] = round(time.time() - t0, 2)
+    t0 = time.time()
+    for ci, c in enumerate(small_dst_cases(thorough)):
+        steps.append(run_small_dst(c))
+        meta.append(("destination-too-small", ci))
+    cov["destination_too_small_cases"] = len(steps) - cov["cross_device_cases"]
+    cov["destination_too_small_wall_s"] = round(time.time() - t0, 2)
+    cov["rule"] = ("cross-device: source and destination on two devices (os.rename fails with EXDEV), as two OSFS objects "
+                   "(fs.move / fs.copy functions, workers 0 / 2) and as ONE OSFS reaching the other device through a directory "
+                   "symlink (FS.move / copy / movedir / copydir x overwrite / create x preserve_time, both directions) x "
+                   "destination missing / a file / an empty directory / a directory with other content / a directory holding "
+                   "same-named entries / below a file / without parent; destination too small: RLIMIT_FSIZE (64 and 2000 "
+                   "bytes) on OSFS / SubFS(OSFS) / WrapFS(OSFS) destinations, sources MemoryFS and OSFS with files smaller "
+                   "and larger than the io buffer, copy_file / move_file / copy_dir / move_dir / copy_fs / move_fs x workers "
+                   "0, 1, 2 x preserve_time; predicate FS/Props2.v preserved2 on the trees before / after, whatever the outcome")
+    return steps, meta, cov
+
+
 def symlink_scenarios():
     """OSFS trees containing a symbolic link to a directory outside the root."""
     import os
@@ -1621,6 +2288,33 @@ def run_c05(report):
         report.violation(dict(kind="aliased-name-data-destroyed", signature=sig,
                               tree="harness/h_fs.py build_alias_tree (data/ + hard-link snapshot snap/ + symlinks)",
                               theorem="Props/C05.v", **r))
+    # two devices (EXDEV) and destinations that are too small (EFBIG when the data reaches the device)
+    fam_steps, fam_meta, fam_cov = run_transfer_families(thorough)
+    fam_ver = common.run_model_parallel(preserved_lines(fam_steps), chunk=100)
+    fam_dist = collections.Counter()
+    fam_bad = 0
+    seen_fam = set()
+    for s, v, (family, ci) in zip(fam_steps, fam_ver, fam_meta):
+        fam_dist["%s/%s/%s" % (family, s.op[0], "ok" if s.outcome.startswith("ok") else s.outcome)] += 1
+        if s.pre != s.post and not s.post.startswith("SNAPFAIL"):
+            nontrivial.add((s.op[0], family, s.backend, s.outcome))
+        # (an OSError for EFBIG is the expected outcome of the too-small family; error classes are C06's subject)
+        if v == "T" and not s.outcome.startswith("crash:NonTermination") and not s.post.startswith("SNAPFAIL") and not (
+                family == "cross-device" and s.outcome.startswith("crash:")):
+            continue
+        fam_bad += 1
+        sig = "%s.%s %s" % (s.backend, s.op[0], "predicate" if v != "T" else s.outcome)
+        known = report.known_match(sig)
+        if known:
+            report.known_finding(known)
+            continue
+        if sig in PENDING_FINDINGS or sig in seen_fam or len(seen_fam) >= 10:
+            continue
+        seen_fam.add(sig)
+        report.violation(dict(kind="transfer-family-data-destroyed-or-not-delivered", family=family, case_index=ci,
+                              backend=s.backend, signature=sig, call=op_json(s.op), tree_before=s.pre, tree_after=s.post,
+                              outcome=s.outcome, predicate="FS/Props2.v preserved2 = " + v, theorem="Props/C05.v"))
+    fam_cov.update(failures=fam_bad, distribution=dict(fam_dist))
     if (model_bad or vm_mism) and not bad:
         report.violation(dict(kind="model-violates-predicate", what="FS/Mem.v fails `preserved` on a history",
                               history=[op_json(o) for o in (regress + hs)[model_bad[0][0]]] if model_bad else None,
@@ -1636,7 +2330,7 @@ def run_c05(report):
         symlink_scenarios=sym, traces_validated_against_impl=len(steps) - len(bad),
         cross_and_view_cases_rerun_with_worker_threads=n_worker_steps, same_object_degenerate_cases=n_same,
         osfs_aliased_name_calls=n_alias, osfs_aliased_name_failures=len(alias_bad),
-        pending_findings_seen=dict(alias_pending),
+        pending_findings_seen=dict(alias_pending), cross_device_and_too_small_destination=fam_cov,
         distribution={"%s/%s" % k: v for k, v in sorted(dist.items())}),
         ["OSFS is checked against the real kernel (no kernel model)", "5 s watchdog per call = termination"])
 
@@ -1645,6 +2339,145 @@ def run_c05(report):
 
 QUERIES = ("getinfo", "listdir", "scandir", "exists", "isdir", "isfile", "isempty", "getsize", "gettype", "readbytes",
            "openread")
+
+
+def render_failures(e):
+    """The ways a caller renders an exception (str, repr, %-formatting, str.format, the traceback module) and a pickle
+    round trip (multiprocessing, logging handlers): [descriptions of what fails]."""
+    import pickle
+    import traceback
+    out = []
+    txt = None
+    for label, f in (("str(e)", lambda: str(e)), ("repr(e)", lambda: repr(e)), ("'%s' % e", lambda: "%s" % e),
+                     ("'{}'.format(e)", lambda: "{}".format(e)),
+                     ("traceback.format_exception_only", lambda: "".join(traceback.format_exception_only(type(e), e)))):
+        try:
+            r = f()
+            if not isinstance(r, str):
+                out.append("%s returns a %s" % (label, type(r).__name__))
+            elif label == "str(e)":
+                txt = r
+            elif label.startswith("traceback") and "<exception str() failed>" in r:
+                out.append("%s: <exception str() failed>" % label)
+        except Exception as x:  # noqa
+            out.append("%s raises %s: %s" % (label, type(x).__name__, str(x)[:80]))
+    try:
+        e2 = pickle.loads(pickle.dumps(e))
+        if type(e2) is not type(e):
+            out.append("pickle round trip gives a %s" % type(e2).__name__)
+        elif txt is not None and str(e2) != txt:
+            out.append("pickle round trip changes the message: %r -> %r" % (txt[:80], str(e2)[:80]))
+    except Exception as x:  # noqa
+        out.append("pickle round trip raises %s: %s" % (type(x).__name__, str(x)[:80]))
+    return out
+
+
+def run_rendered(bc, histories):
+    """run_histories with every exception any call raises put through render_failures();
+    returns (steps, [(history index, call index, exception class, failures)])."""
+    cur = [None]
+    log = []
+
+    def hook(_fs, _op, e):
+        r = render_failures(e)
+        if r:
+            log.append((cur[0][0], cur[0][1], type(e).__name__, r))
+
+    def ex(fsx, o, hi, k):
+        cur[0] = (hi, k)
+        return fsops.execute(fsx, o)
+    old = fsops.EXC_HOOK
+    fsops.EXC_HOOK = hook
+    try:
+        steps = run_histories(bc, histories, execute=ex)
+    finally:
+        fsops.EXC_HOOK = old
+    return steps, log
+
+
+# ---- C06: paths that are TOO LONG for the storage (FS.validatepath: "InvalidPath: if path is too long").  Built from
+# short components, so that every component is acceptable and only the total length is not.
+
+LONG_COMPONENT = "abc" * 33
+LONG_SETUP = [("makedirs", "d/e", True), ("writebytes", "f", b"F"), ("writebytes", "d/g", b"G")]
+
+
+def path_limit():
+    import os
+    try:
+        return int(os.pathconf("/", "PC_PATH_MAX"))
+    except (OSError, ValueError, AttributeError):
+        return 4096
+
+
+def long_paths():
+    """(shape, path): over-long real paths (all components missing, below an existing directory, below a file) and
+    over-long SPELLINGS of short paths (these are ordinary calls: the normal form is what counts)."""
+    n = path_limit() // (len(LONG_COMPONENT) + 1) + 4
+    tail = "/".join([LONG_COMPONENT] * n)
+    return [("missing", tail), ("below-directory", "d/" + tail), ("below-file", "f/" + tail), ("absolute", "/d/e/" + tail),
+            ("long-spelling-of-file", "d/" + "./" * (path_limit() // 2 + 50) + "g"),
+            ("long-spelling-of-directory", "zz/../" * (path_limit() // 6 + 50) + "d/e")]
+
+
+def long_path_history(thorough=True, seed=0):
+    """One history: the setup, then every call kind with a long path in every path position.  Quick tier: every call
+    kind and position with the first shape, a seed-dependent third of them with each other shape."""
+    rnd = random.Random(seed)
+    calls, late = [], []
+    for si, (shape, long) in enumerate(long_paths()):
+        for n in sorted(fsops.OPC, key=lambda k: fsops.OPC[k]):
+            if n in ("makedir", "makedirs", "create"):
+                cs = [(n, long, True), (n, long, False)]
+            elif n in ("writebytes", "appendbytes"):
+                cs = [(n, long, b"x")]
+            elif n == "openwrite":
+                cs = [(n, long, "wb", b"x"), (n, long, "ab", b"x"), (n, long, "r+b", b"x")]
+            elif n == "openread":
+                cs = [(n, long, "rb")]
+            elif n in ("move", "copy", "movedir", "copydir"):
+                other = "f" if n in ("move", "copy") else "d"
+                cs = [(n, long, "new", True, False), (n, other, long, True, False), (n, other, long, False, True),
+                      (n, long, long + "/x", True, False)]
+            elif n == "setinfo":
+                cs = [(n, long, 3)]
+            else:
+                cs = [(n, long)]
+            if n == "makedirs" and not shape.startswith("long-spelling"):
+                # (succeeds where there is no limit and builds a tree as deep as the path: once, as the last call)
+                if si == 0:
+                    late.append(cs[0])
+                continue
+            for c in cs:        # calls that remove what the other calls work on go last
+                if not thorough and si > 0 and rnd.random() > 0.34:
+                    continue
+                (late if n in ("copydir", "movedir", "removetree", "move", "remove", "removedir") and
+                 shape.startswith("long-spelling") else calls).append(c)
+    late.sort(key=lambda c: c[0] == "makedirs")
+    return LONG_SETUP + calls + late
+
+
+def too_long_for(bc, path):
+    """Is the system path of `path` longer than the limit the backend's storage reports (getmeta max_sys_path_length)?
+    Asked of the filesystem object and of what it wraps, through the public API."""
+    b = bc()
+    try:
+        fsx = b.make()
+        cands = [fsx, getattr(b, "inner", None), getattr(b, "parent", None)]
+        try:
+            cands.append(fsx.delegate_fs())
+        except Exception:  # noqa
+            pass
+        for c in cands:
+            try:
+                lim = c.getmeta().get("max_sys_path_length")
+                if lim and c.hassyspath("/") and len(c.getsyspath("/")) + len(path.strip("/")) > lim:
+                    return True
+            except Exception:  # noqa
+                pass
+        return False
+    finally:
+        b.close()
 
 
 def run_c06(report):
@@ -1656,20 +2489,36 @@ def run_c06(report):
     total = 0
     dist = collections.Counter()
     succeeding = []
+    unrendered = []
+    long_h = long_path_history(thorough, report.seed + 607)
+    shortest_long = min(len(p) for shape, p in long_paths() if not shape.startswith("long-spelling"))
+    too_long = set()        # backends whose storage documents a limit the over-long paths exceed
+    n_long = 0
     for bc in B.ALL:
         use = regress + (hs if bc in (B.Mem, B.OS, B.SubMem) or thorough else hs[:60])
-        for s in run_histories(bc, use):
+        if too_long_for(bc, long_paths()[0][1]):
+            too_long.add(bc.name)
+        use = use + [long_h]
+        steps_bc, log = run_rendered(bc, use)
+        for hi, k, cls, fails in log:
+            unrendered.append(dict(backend=bc.name, history=[op_json(o) for o in use[hi][:k + 1]], exception=cls,
+                                   rendering_failures=fails))
+        for s in steps_bc:
             total += 1
+            if s.hist_id == len(use) - 1 and s.index >= len(LONG_SETUP):
+                n_long += 1
             if not s.outcome.startswith("ok:"):
                 failing.append(s)
                 dist[(s.backend, s.op[0], s.outcome)] += 1
             elif s.op[0] not in QUERIES:
                 succeeding.append(s)
-    refs = ref_steps(failing)
+    # (smaller chunks than ref_steps(): the over-long paths make some lines expensive for the extracted model)
+    ref_lines = lambda steps: ["fs refstep " + " ".join(tree_tokens(x.pre) + fsops.encode(x.op)) for x in steps]
+    refs = common.run_model_parallel(ref_lines(failing), chunk=400)
     bad = []
     nontrivial = set()
     # a call whose preconditions do not hold must fail: the reference rejects it, the backend returned normally
-    for s, r in zip(succeeding, ref_steps(succeeding)):
+    for s, r in zip(succeeding, common.run_model_parallel(ref_lines(succeeding), chunk=400)):
         if r.split("#", 1)[0].startswith("fail:"):
             bad.append((s, r, "the call returned normally although its preconditions do not hold (reference: %s)"
                         % r.split("#", 1)[0]))
@@ -1680,6 +2529,9 @@ def run_c06(report):
         if s.outcome.startswith("crash:"):
             if not (s.outcome == "crash:ValueError" and rres == "crash:ValueError"):
                 why = "not an fs.errors exception"
+        elif s.outcome == "err:InvalidPath" and s.backend in too_long and any(
+                isinstance(x, str) and len(x) >= shortest_long for x in s.op[1:3]):
+            pass        # "InvalidPath: if path is too long" holds; the tree must still be unchanged (below)
         elif rres.startswith("fail:"):
             if s.outcome[4:] not in rres[5:].split(","):
                 why = "the documented condition of %s does not hold (admissible: %s)" % (s.outcome[4:], rres[5:])
@@ -1689,6 +2541,9 @@ def run_c06(report):
                 and not r.endswith("#ANY") and not s.post.startswith("SNAPFAIL") \
                 and fsops.canon_tree(s.pre) != fsops.canon_tree(s.post):
             why = "a directory call rejected by its argument checks changed the tree"
+        if why is None and s.outcome == "err:InvalidPath" and not s.post.startswith("SNAPFAIL") \
+                and fsops.canon_tree(s.pre) != fsops.canon_tree(s.post):
+            why = "a call rejected for its path changed the tree"
         if why is None and s.op[0] in SINGLE and fsops.canon_tree(s.pre) != (
                 fsops.canon_tree(s.post) if not s.post.startswith("SNAPFAIL") else None):
             why = "a failed single-resource call changed the tree"
@@ -1707,6 +2562,18 @@ def run_c06(report):
         report.violation(dict(kind="bad-failure", why=why, backend=s.backend, call=op_json(s.op),
                               tree_before=s.pre, tree_after=s.post, implementation=s.outcome,
                               reference=r, theorem="Props/C06.v"))
+    seen_r = set()
+    for d in unrendered:
+        sig = "render %s raised by %s.%s" % (d["exception"], d["backend"], d["history"][-1][0])
+        known = report.known_match(sig)
+        if known:
+            report.known_finding(known)
+            continue
+        if sig in PENDING_FINDINGS or sig in seen_r or len(seen_r) >= 10:
+            continue
+        seen_r.add(sig)
+        report.violation(dict(kind="raised-exception-does-not-render", signature=sig, call=d["history"][-1],
+                              theorem="Props/C06.v", **d))
     rend = render_probe()
     for r in rend:
         if not r["renders"]:
@@ -1722,7 +2589,16 @@ def run_c06(report):
              "fs.errors class admissible for the reference in the backend's pre-state, str()/repr() must "
              "render, single-resource calls must leave the snapshot unchanged; non-trivial = distinct "
              "(call kind, class, tree)",
-        failing_calls=len(failing), disagreements_checked=len(bad), render_probes=rend,
+        failing_calls=len(failing), disagreements_checked=len(bad) + len(unrendered), render_probes=rend,
+        raised_exceptions_rendered="every exception any call of the histories raises, on every backend: str / repr / "
+                                   "'%s' % e / '{}'.format(e) / traceback.format_exception_only / pickle round trip",
+        raised_exceptions_that_do_not_render=len(unrendered),
+        over_long_path_calls=n_long, over_long_path_shapes=[(shape, len(p)) for shape, p in long_paths()],
+        over_long_path_rule="every call kind x every path position x paths whose system path exceeds the limit the "
+                            "storage documents (built from %d-character components: missing, below a directory, below a "
+                            "file) and over-long spellings of short paths, on every backend: the reference decides, "
+                            "InvalidPath is admissible where the storage documents the limit (%s), the message renders, "
+                            "the tree is unchanged" % (len(LONG_COMPONENT), ", ".join(sorted(too_long))),
         traces_validated_against_impl=len(failing) - len(bad),
         distribution={"%s/%s/%s" % k: v for k, v in sorted(dist.items())[:150]}),
         ["the reference's admissible classes (FS/Ref.v) encode 'documented condition holds'"])
@@ -1912,6 +2788,53 @@ def query_check(fs, path, is_dir_expected=None):
     return bad
 
 
+NS_ALL = ["details", "access", "stat", "lstat", "link", "zip", "tar"]
+NS_VOLATILE = ("accessed", "metadata_changed", "st_atime", "st_atime_ns", "st_ctime", "st_ctime_ns")
+
+
+def ns_subsets(path, thorough):
+    """Namespace subsets asked of scandir and getinfo: all 128 in the thorough tier; in the quick tier the full set, the
+    singletons and four more chosen by the path."""
+    import itertools
+    import zlib
+    every = [list(c) for k in range(len(NS_ALL) + 1) for c in itertools.combinations(NS_ALL, k)]
+    if thorough:
+        return every
+    k = zlib.crc32(path.encode("utf8"))
+    rest = [s for s in every if 1 < len(s) < len(NS_ALL)]
+    return [list(NS_ALL)] + [[n] for n in NS_ALL] + [rest[(k + j * 37) % len(rest)] for j in range(4)]
+
+
+def namespace_check(fs, path, thorough):
+    """Every scandir info = getinfo(join(path, name)) on every namespace both carry, for every namespace subset."""
+    import fs.errors as E
+    from fs.path import join
+    bad = []
+    for ns in ns_subsets(path, thorough):
+        try:
+            infos = list(fs.scandir(path, namespaces=ns))
+        except E.FSError as e:
+            bad.append("scandir(namespaces=%s) fails: %s" % (ns, type(e).__name__))
+            continue
+        for i in infos:
+            try:
+                g = fs.getinfo(join(path, i.name), namespaces=ns)
+            except E.FSError as e:
+                bad.append("scandir(namespaces=%s) lists %r but getinfo fails: %s" % (ns, i.name, type(e).__name__))
+                break
+            for key in sorted(set(i.raw) & set(g.raw)):
+                a = dict((k, v) for k, v in i.raw[key].items() if k not in NS_VOLATILE)
+                b = dict((k, v) for k, v in g.raw[key].items() if k not in NS_VOLATILE)
+                if a != b:
+                    diff = sorted(k for k in set(a) | set(b) if a.get(k, "<absent>") != b.get(k, "<absent>"))
+                    bad.append("scandir %s != getinfo %s for %r (namespaces=%s): keys %s" % (key, key, i.name, ns, diff[:6]))
+                    break
+            else:
+                continue
+            break
+    return bad
+
+
 def _answers(fs, path, is_dir):
     """What the queries say about one spelling of a path (errors by class; anything else as a crash)."""
     import fs.errors as E
@@ -1976,11 +2899,12 @@ def run_c10(report):
     total = 0
     bad = []
     nontrivial = set()
-    backs = list(B.ALL) + [ReadZip, ReadTar, MultiLayered] + C10_WRAPPED + C10_HETERO
+    backs = list(B.ALL) + [ReadZip, ReadTar, MultiLayered] + C10_WRAPPED + C10_HETERO + B.LINKED
     per = collections.Counter()
-    n_spell = 0
+    n_spell = n_ns = 0
     for bc in backs:
-        for hi, h in enumerate(hs if bc in (B.Mem, B.OS) or thorough else hs[:6] if bc in C10_HETERO else hs[:25]):
+        for hi, h in enumerate(hs if bc in (B.Mem, B.OS) or thorough else hs[:6] if bc in C10_HETERO
+                               else hs[:8] if bc in B.LINKED else hs[:25]):
             b = bc()
             try:
                 fs = b.make()
@@ -2016,6 +2940,13 @@ def run_c10(report):
                         if thorough or o is None or k >= len(seq) - 2:     # quick tier: in the last state checked
                             r = r + spelling_check(fs, p, thorough)
                             n_spell += 1
+                            try:
+                                p_is_dir = fs.isdir(p)
+                            except Exception:  # noqa
+                                p_is_dir = False
+                            if p_is_dir:
+                                r = r + namespace_check(fs, p, thorough)
+                                n_ns += 1
                         nontrivial.add((bc.name, len(paths), p, fs.isdir(p)))
                         if r:
                             bad.append((bc.name, h[:k + 1] if o is not None else h, p, r))
@@ -2029,6 +2960,14 @@ def run_c10(report):
         # page inconsistencies get their own class signature, whatever else is inconsistent is judged normally
         if "cache_directory" in name and "after a paged scandir" in name:
             bad2.append((name, h, p, r, C10_CACHED_PAGE_MISS))
+            continue
+        if name in LINKED_NAMES and (p == B.DANGLING_DIR or p.startswith(B.DANGLING_DIR + "/")):
+            # the directory that holds the dangling links (nothing else is wrong there by construction)
+            gi = [x for x in r if "but getinfo fails" in x]
+            if gi:
+                bad2.append((name, h, p, gi, C10_DANGLING_GETINFO))
+            if len(gi) < len(r):
+                bad2.append((name, h, p, [x for x in r if x not in gi], C10_DANGLING_SCANDIR))
             continue
         mp = [x for x in r if re.match(r"scandir details != getinfo details for '(%s|zip2)'" % "|".join(HETERO_KINDS), x)]
         if name == HeteroMount.name and mp and p in ("/", "/deep/er"):
@@ -2060,6 +2999,12 @@ def run_c10(report):
              "pages are compared with each other; non-trivial = distinct (backend, tree size, path, kind)",
         disagreements_checked=len(bad), per_backend=dict(per), traces_validated_against_impl=total - len(bad),
         wrapper_objects=[bc.name for bc in C10_WRAPPED], pending_findings_seen=dict(pending_seen),
+        symbolic_link_trees=[bc.name for bc in B.LINKED], directories_compared_per_namespace_subset=n_ns,
+        namespace_rule="scandir(d, namespaces=S) infos = getinfo(join(d, name), namespaces=S) on every namespace both carry "
+                       "(volatile keys %s excluded), for S over the subsets of %s (quick tier: the full set, the singletons "
+                       "and four more chosen by the path; thorough: all %d); OS-backed trees also hold symbolic links to "
+                       "files (relative, absolute, chained), to directories, and - in a directory of their own - dangling "
+                       "ones" % (list(NS_VOLATILE), NS_ALL, 2 ** len(NS_ALL)),
         heterogeneous_compositions=[bc.name for bc in C10_HETERO], paths_queried_with_other_spellings=n_spell,
         spelling_rule="every path of the battery is also queried (exists/isdir/isfile/getinfo with and without "
                       "namespaces/gettype/getsize/readbytes/openbin/listdir/scandir/isempty) with other spellings "
@@ -2330,6 +3275,8 @@ class HeteroMount(HeteroMulti):
 
 
 C10_HETERO = [HeteroMulti, HeteroMultiArchivesFirst, HeteroMount]
+
+LINKED_NAMES = set(bc.name for bc in B.LINKED)
 
 C10_WRAPPED = [WrappedLoaded, WrappedLoadedPeek, ReadOnlyLoaded, ReadOnlyLoadedPeek, ReadOnlyCachedLoadedPeek,
                SubCachedLoadedPeek, WrappedLoadedPaged]
@@ -2638,6 +3585,188 @@ def mount_spelling_block(rnd, thorough):
     return total, groups, bad
 
 
+# ---- C11: the calls that take a START path and keyword arguments (bounded walks, glob, filterdir).  The path position
+# is the same as in the plain walk / scandir, but what the keywords mean (max_depth counted from the start directory,
+# glob patterns anchored at it, pages of the filtered listing) depends on how the start path is interpreted.
+
+WALK_KW_VALUES = dict(
+    search=["breadth", "depth"], max_depth=[0, 1, 2, 3],
+    filter=[["a*"], ["*.b", "c", "g"]], exclude=[["a*", "g"]], filter_dirs=[["a*", "b", "d", "e"]], exclude_dirs=[["b*", "e"]],
+    filter_glob=[["**/a*"], ["/d/**", "*/g"]], exclude_glob=[["**/e/**"], ["/d/g"]], ignore_errors=[True, False],
+    on_error=[lambda p, e: True])
+WALK_METHODS = ("files", "dirs", "info", "walk")
+GLOB_PATTERNS = ["*", "**/*", "*/", "**/a*", "d/*", "**/e/**/", "*/*/*", "/d/*"]
+GLOB_KW_VALUES = dict(case_sensitive=[True, False], exclude_dirs=[None, ["e"], ["b*", "k"]], namespaces=[None, ["details"]])
+FILTERDIR_KW_VALUES = dict(files=[None, ["a*", "*.b"], ["g"]], dirs=[None, ["b*", "e"]], exclude_dirs=[None, ["e", "a*"]],
+                           exclude_files=[None, ["a*"]], namespaces=[None, ["details"]],
+                           page=[None, (0, 1), (1, 3), (2, 1)])
+DEEP_TREE = [("makedirs", "d/e/k/m", True), ("writebytes", "f", b"F"), ("writebytes", "d/g", b"G"),
+             ("writebytes", "d/e/a", b"A"), ("writebytes", "d/e/k/a.b", b"AB"), ("writebytes", "d/e/k/m/c", b"C"),
+             ("makedirs", "b/a/b", True), ("writebytes", "b/a/b/g", b"g2"), ("writebytes", "b/ab", b"")]
+
+
+def _kw_names(func, skip):
+    import inspect
+    return [p for p in inspect.signature(func).parameters if p not in skip]
+
+
+def start_path_queries(rnd, thorough):
+    """[(label, callable(fs, start path) -> comparable result)] - the keywords come from the signatures."""
+    import fs.base
+    import fs.glob
+    import fs.walk
+    qs = []
+    unknown = []
+
+    def walk_q(method, kw):
+        def run(fsx, p):
+            w = fsx.walk
+            if method == "files":
+                return list(w.files(p, **kw))
+            if method == "dirs":
+                return list(w.dirs(p, **kw))
+            if method == "info":
+                return [(q, i.name, i.is_dir) for q, i in w.info(p, **kw)]
+            return [(q, [i.name for i in ds], [i.name for i in fl]) for q, ds, fl in w.walk(p, **kw)]
+        shown = dict((k, "<callable>" if callable(v) else v) for k, v in kw.items())
+        return ("walk.%s(path, %s)" % (method, ", ".join("%s=%r" % kv for kv in sorted(shown.items()))), run)
+    wk = _kw_names(fs.walk.Walker.__init__, ("self",))
+    unknown += [k for k in wk if k not in WALK_KW_VALUES]
+    wk = [k for k in wk if k in WALK_KW_VALUES]
+    for m in WALK_METHODS:          # the bounded walks: every depth bound x both search orders
+        for d in WALK_KW_VALUES["max_depth"][:3]:
+            for s in WALK_KW_VALUES["search"]:
+                qs.append(walk_q(m, dict(max_depth=d, search=s)))
+    for k in wk:                    # every other keyword, unbounded and bounded
+        if k in ("max_depth", "search"):
+            continue
+        for v in WALK_KW_VALUES[k]:
+            for m in (WALK_METHODS if thorough else rnd.sample(WALK_METHODS, 2)):
+                qs.append(walk_q(m, {k: v}))
+                qs.append(walk_q(m, {k: v, "max_depth": rnd.choice([1, 2]), "search": rnd.choice(WALK_KW_VALUES["search"])}))
+    for _ in range(60 if thorough else 10):
+        ks = rnd.sample(wk, rnd.randint(2, 4))
+        qs.append(walk_q(rnd.choice(WALK_METHODS), dict((k, rnd.choice(WALK_KW_VALUES[k])) for k in ks)))
+
+    def glob_q(pat, kw, count):
+        def run(fsx, p):
+            g = fsx.glob(pat, path=p, **kw)
+            if count:
+                c = g.count()
+                return (c.files, c.directories, c.data)
+            return [(m.path, m.info.is_dir) for m in g]
+        return ("glob(%r, path, %s)%s" % (pat, ", ".join("%s=%r" % kv for kv in sorted(kw.items())),
+                                          ".count()" if count else ""), run)
+    gk = _kw_names(fs.glob.BoundGlobber.__call__, ("self", "pattern", "path"))
+    unknown += [k for k in gk if k not in GLOB_KW_VALUES]
+    gk = [k for k in gk if k in GLOB_KW_VALUES]
+    for pat in GLOB_PATTERNS:
+        qs.append(glob_q(pat, {}, False))
+        for k in gk:
+            for v in GLOB_KW_VALUES[k]:
+                if thorough or rnd.random() < 0.35:
+                    qs.append(glob_q(pat, {k: v}, rnd.random() < 0.25))
+
+    def filterdir_q(kw):
+        def run(fsx, p):
+            return [(i.name, i.is_dir) for i in fsx.filterdir(p, **kw)]
+        return ("filterdir(path, %s)" % ", ".join("%s=%r" % kv for kv in sorted(kw.items())), run)
+    fk = _kw_names(fs.base.FS.filterdir, ("self", "path"))
+    unknown += [k for k in fk if k not in FILTERDIR_KW_VALUES]
+    fk = [k for k in fk if k in FILTERDIR_KW_VALUES]
+    for k in fk:
+        for v in FILTERDIR_KW_VALUES[k]:
+            if v is not None:
+                qs.append(filterdir_q({k: v}))
+    for _ in range(40 if thorough else 8):
+        ks = rnd.sample(fk, rnd.randint(2, 4))
+        qs.append(filterdir_q(dict((k, rnd.choice(FILTERDIR_KW_VALUES[k])) for k in ks)))
+    return qs, sorted(set(unknown))
+
+
+def start_path_backends(thorough):
+    base = [B.Mem, B.OS, B.SubMem, B.Wrap, B.MountSub, B.CachedDirMem, B.ReadOnlyMem, ReadZip]
+    if thorough:
+        base += [B.SubOS, B.WrapOS, B.MultiOne, B.MountDefault, B.CachedDirOS, B.SubCachedDir, B.ReadOnlyOS, ReadTar, B.ZipW,
+                 B.Temp, B.SubSub]
+    return base
+
+
+def _start_answer(fsx, run, p):
+    import signal
+    old = signal.signal(signal.SIGALRM, fsops._alarm)
+    signal.alarm(5)
+    try:
+        try:
+            return "ok:" + repr(run(fsx, p))
+        except fsops.Timeout:
+            return "crash:NonTermination"
+        except Exception as e:  # noqa
+            return common.exc_name(e)
+    finally:
+        signal.alarm(0)
+        signal.signal(signal.SIGALRM, old)
+
+
+def start_path_object(bc, h):
+    """-> (backend object, filesystem) holding the tree built by history h."""
+    b = bc()
+    try:
+        fsx = b.make()
+        if hasattr(b, "load"):
+            fsx = b.load(h)
+        else:
+            for o in h:
+                fsops.execute(b.inner if getattr(b, "setup_via_inner", False) else fsx, o)
+    except Exception:
+        b.close()
+        raise
+    return b, fsx
+
+
+def start_path_block(seed, hs, thorough):
+    """Every start-path query x directories of a tree (+ a file, + a missing path) x the spellings of that path, on one
+    object in one state: the answers must coincide.
+    Returns (calls, groups, groups per backend, keywords without value table, number of query kinds, disagreements)."""
+    rnd = random.Random(seed)
+    queries, unknown = start_path_queries(rnd, thorough)
+    total = groups = 0
+    per = collections.Counter()
+    bad = []
+    trees = [DEEP_TREE] + [DEEP_TREE[:5] + list(h) for h in hs[: (6 if thorough else 1)]]
+    for bc in start_path_backends(thorough):
+        for ti, h in enumerate(trees):
+            g = genhist.Gen(rnd, spell=0.0, odd=0.0)
+            for o in h:
+                fsops.execute(g.shadow, o)
+            files, dirs = g.existing()
+            b, fsx = start_path_object(bc, h)
+            try:
+                front = [d for d in ("/", "/d", "/d/e") if d in dirs]
+                keys = dirs if thorough or len(dirs) <= 5 else front + rnd.sample([d for d in dirs if d not in front], 2)
+                keys = keys + files[:1] + ["/nope"]
+                for p in keys:
+                    sp = spellings(p, rnd, ["zz", "d", "f"])
+                    if not thorough and len(sp) > 6:
+                        sp = sp[:3] + rnd.sample(sp[3:], 3)
+                    use = range(len(queries)) if thorough or p in front else rnd.sample(range(len(queries)), len(queries) // 4)
+                    for qi in use:
+                        label, run = queries[qi]
+                        res = [(sx, _start_answer(fsx, run, sx)) for sx in sp]
+                        total += len(res)
+                        groups += 1
+                        per[bc.name] += 1
+                        for r in res[1:]:
+                            if r[1] != res[0][1]:
+                                bad.append(dict(backend=bc.name, history=h, query=label, query_index=qi, block_seed=seed,
+                                                path=p, a=res[0], b=r, spellings=[x[0] for x in res],
+                                                results=[x[1] for x in res]))
+                                break
+            finally:
+                b.close()
+    return total, groups, dict(per), unknown, len(queries), bad
+
+
 def run_c11(report):
     proof = common.preflight(report)
     thorough = report.tier == "thorough"
@@ -2773,6 +3902,25 @@ def run_c11(report):
                               spellings=[r[0] for r in d["results"]], results=[r[1] for r in d["results"]],
                               spelling_a=d["a"][0], result_a=d["a"][1], spelling_b=d["b"][0], result_b=d["b"][1],
                               theorem="Props/C11.v"))
+    # the calls with a START path and keywords: bounded walks, glob, filterdir
+    sp_total, sp_groups, sp_per, sp_unknown, sp_kinds, sp_bad = start_path_block(report.seed + 1113, hs, thorough)
+    total += sp_total
+    groups += sp_groups
+    for d in sp_bad:
+        sig = "%s.%s start-path spellings" % (d["backend"], d["query"].split("(")[0])
+        known = report.known_match(sig)
+        if known:
+            report.known_finding(known)
+            continue
+        if sig in PENDING_FINDINGS or sig in seen_ll or len(seen_ll) >= 10:
+            continue
+        seen_ll.add(sig)
+        nontrivial.add((d["backend"], d["query"], "start-path", d["a"][1][:30]))
+        report.violation(dict(kind="start-path-spellings-disagree", backend=d["backend"], signature=sig,
+                              history=[op_json(o) for o in d["history"]], query=d["query"], query_index=d["query_index"],
+                              block_seed=d["block_seed"], path=d["path"], spellings=d["spellings"], results=d["results"],
+                              spelling_a=d["a"][0], result_a=d["a"][1], spelling_b=d["b"][0], result_b=d["b"][1],
+                              theorem="Props/C11.v"))
     # MountFS.mount(path, fs): the path argument of the composition's own public method
     mt_total, mt_groups, mt_bad = mount_spelling_block(rnd, thorough)
     total += mt_total
@@ -2808,7 +3956,14 @@ def run_c11(report):
              "normal form (leading/trailing/double slash, './', '/.', 'x/../' detours through missing and "
              "existing names) from identical states rebuilt by replaying the history; outcomes and trees must "
              "coincide; non-trivial = distinct (backend, call kind, position, outcome)",
-        groups=groups, disagreements_checked=len(bad) + len(ll_bad) + len(ar_bad) + len(mt_bad),
+        groups=groups, disagreements_checked=len(bad) + len(ll_bad) + len(ar_bad) + len(mt_bad) + len(sp_bad),
+        start_path_rule="walk.files / dirs / info / walk with max_depth 0, 1, 2 x both search orders, every other Walker "
+                        "keyword (from the signature) alone, bounded and in random combinations; glob(pattern, path=, "
+                        "case_sensitive=, exclude_dirs=, namespaces=) incl. count(); filterdir with its keywords and pages - "
+                        "issued with the spellings of every start directory (+ a file, + a missing path) of a deep tree and "
+                        "of a random tree, on one object: the answers (reported paths included) must coincide",
+        start_path_calls=sp_total, start_path_groups_per_backend=sp_per, start_path_query_kinds=sp_kinds,
+        start_path_keywords_without_value_table=sp_unknown, start_path_disagreements=len(sp_bad),
         traces_validated_against_impl=total,
         read_only_archive_rule="ReadZipFS / ReadTarFS written from populated trees and a heterogeneous MultiFS: every "
                                "read-only call kind (+ getinfo with details/access/link/zip/tar namespaces, raw) x key "
